@@ -107,51 +107,72 @@ Definition order_rank (v : value) : N :=
   | VNull => cy_rank_Null
   end.
 
-(* order_compare_non_null; None only from the derived partial_cmp on maps
-   (a NaN inside a map) *)
-Fixpoint order_nn (tp : toracle) (a b : value) {struct a} : option comparison :=
+(* order_compare_non_null.  In the code it returns Option<Ordering>; None can only come from
+   the fallback `left.partial_cmp(right)`, which no pair of modelled variants reaches (maps are
+   compared entry by entry by compare_maps_ordering), so the model is the total `order_t` and
+   `order_nn` wraps it in Some.  Elements of lists and values of maps are compared with
+   compare_value_for_list_ordering: nulls last, otherwise recursively. *)
+Fixpoint order_t (tp : toracle) (a b : value) {struct a} : comparison :=
   match a, b with
-  | VBool x, VBool y => Some (bool_cmp x y)
-  | VInt x, VInt y => Some (Z.compare x y)
-  | VInt _, VFloat _ | VFloat _, VInt _ | VFloat _, VFloat _ => Some (num_order a b)
-  | VStr x, VStr y => Some (str_cmp tp x y)
-  | VMap _, VMap _ => dcmp a b
+  | VBool x, VBool y => bool_cmp x y
+  | VInt x, VInt y => Z.compare x y
+  | VInt _, VFloat _ | VFloat _, VInt _ | VFloat _, VFloat _ => num_order a b
+  | VStr x, VStr y => str_cmp tp x y
   | VList l, VList r =>
-      (* compare_lists_ordering with compare_value_for_list_ordering *)
-      (fix go (l r : list value) {struct l} : option comparison :=
+      (* compare_lists_ordering *)
+      (fix go (l r : list value) {struct l} : comparison :=
          match l, r with
-         | [], [] => Some Eq
-         | [], _ :: _ => Some Lt
-         | _ :: _, [] => Some Gt
+         | [], [] => Eq
+         | [], _ :: _ => Lt
+         | _ :: _, [] => Gt
          | x :: l', y :: r' =>
              match (match x, y with
-                    | VNull, VNull => Some Eq
-                    | VNull, _ => Some Gt
-                    | _, VNull => Some Lt
-                    | _, _ => order_nn tp x y
+                    | VNull, VNull => Eq
+                    | VNull, _ => Gt
+                    | _, VNull => Lt
+                    | _, _ => order_t tp x y
                     end) with
-             | Some Eq => go l' r'
+             | Eq => go l' r'
              | o => o
              end
          end) l r
-  | VNode x, VNode y => Some (N.compare x y)
-  | VRel a1 a2 a3, VRel b1 b2 b3 => Some (n3_cmp (a1, a2, a3) (b1, b2, b3))
+  | VMap l, VMap r =>
+      (* compare_maps_ordering: keys in key order, then values like list elements *)
+      (fix go (l r : list (bytes * value)) {struct l} : comparison :=
+         match l, r with
+         | [], [] => Eq
+         | [], _ :: _ => Lt
+         | _ :: _, [] => Gt
+         | (k, x) :: l', (k', y) :: r' =>
+             match lex_cmp k k' with
+             | Eq =>
+                 match (match x, y with
+                        | VNull, VNull => Eq
+                        | VNull, _ => Gt
+                        | _, VNull => Lt
+                        | _, _ => order_t tp x y
+                        end) with
+                 | Eq => go l' r'
+                 | o => o
+                 end
+             | c => c
+             end
+         end) l r
+  | VNode x, VNode y => N.compare x y
+  | VRel a1 a2 a3, VRel b1 b2 b3 => n3_cmp (a1, a2, a3) (b1, b2, b3)
   | VPath n1 e1, VPath n2 e2 =>
-      Some (match lex_by N.compare n1 n2 with Eq => lex_by n3_cmp e1 e2 | c => c end)
-  | _, _ =>
-      match N.compare (order_rank a) (order_rank b) with
-      | Eq => dcmp a b          (* `left.partial_cmp(right)`: only VNull, VNull gets here *)
-      | c => Some c
-      end
+      match lex_by N.compare n1 n2 with Eq => lex_by n3_cmp e1 e2 | c => c end
+  | _, _ => N.compare (order_rank a) (order_rank b)
   end.
+Definition order_nn (tp : toracle) (a b : value) : option comparison := Some (order_t tp a b).
 
-(* order_compare: nulls last, `unwrap_or(Equal)` *)
+(* order_compare: nulls last *)
 Definition order_cmp (tp : toracle) (a b : value) : comparison :=
   match a, b with
   | VNull, VNull => Eq
   | VNull, _ => Gt
   | _, VNull => Lt
-  | _, _ => match order_nn tp a b with Some c => c | None => Eq end
+  | _, _ => order_t tp a b
   end.
 
 (* ---------- compare_values: < <= > >= ---------- *)
